@@ -69,7 +69,10 @@ def gen_drawing(r, flags=True):
     one of the four directions, explicitly or cursor-style"""
     nx, ny = r.choice([(2, 2), (3, 2), (2, 3), (3, 2)])
     unit = r.choice([3, 5, 7, 8])
-    S = float(unit) * r.choice([1, 1, 0.5, 2])
+    S = float(unit) * r.choice([1, 1, 0.5, 2, 0.37, 1.005, 3.3333333333333335])
+    # the whole drawing may sit far from the origin or at negative / non-integer coordinates
+    ox, oy = r.choice([(0.0, 0.0), (0.0, 0.0), (-50.0, 12.5), (1000.005, -0.004), (0.12345, 7.0), (-3 * S, -2 * S),
+                    (10000.0, 0.0), (-12345.0, 12345.0), (0.25, 123456.5)])
     pts = [(i, j) for i in range(nx) for j in range(ny)]
     edges = []
     for (i, j) in pts:
@@ -125,10 +128,10 @@ def gen_drawing(r, flags=True):
         if refs:
             opts += ["ref"]
         o = r.choice(opts)
-        if not ends and p == (0, 0) and r.random() < 0.5:
+        if not ends and p == (0, 0) and (ox, oy) == (0.0, 0.0) and r.random() < 0.5:
             o = "cursor"
         if o == "xy":
-            e["at"] = {"xy": [p[0] * S, p[1] * S]}
+            e["at"] = {"xy": [ox + p[0] * S, oy + p[1] * S]}
         elif o == "ref":
             i, a = r.choice(refs)
             e["at"] = {"el": i, "anchor": a}
@@ -141,12 +144,12 @@ def gen_drawing(r, flags=True):
         if ends and ends[-1][1] == g and r.random() < 0.5:
             pass
         else:
-            e["at"] = {"xy": [g[0] * S, g[1] * S]}
+            e["at"] = {"xy": [ox + g[0] * S, oy + g[1] * S]}
         if r.random() < 0.3:
             e["dir"] = r.choice(["right", "left", "up", "down"])
         elems.insert(len(elems), e)
         if r.random() < 0.1:      # a second ground: MultipleGroundNodes, outside the domain (counted as discarded)
-            elems.append({"cls": "ground", "kw": enc({"name": "g2"}), "at": {"xy": [S, S]}})
+            elems.append({"cls": "ground", "kw": enc({"name": "g2"}), "at": {"xy": [ox + S, oy + S]}})
     return {"kind": "drawing", "unit": unit, "ctx": r.random() < 0.5, "elems": elems}
 
 
